@@ -87,7 +87,10 @@ def analyse(seed):
         g['cost'] = (g['cost'] * (nd // len(g['cost']) + 1))[:nd]
   out['reused'] = history is not None
   rstate = r2.choice([0, 7, 12345])                 # the seed is the caller's: 0 is a seed like any other
-  m = fit_iroas(spec, history=history)
+  # in a third of the frames the experiment's geos also have rows on days before the pre-period, labelled
+  # "unassigned" (-1), that carry spend: none of it is pre-period or test-period cost
+  out['unassigned_days_with_spend'] = r2.random() < 0.33
+  m = fit_iroas(spec, history=history, outside=out['unassigned_days_with_spend'])
   rep = row(m.summary(level=level, posterior_threshold=thr, tails=tails, nsims=2000, random_state=rstate))
   if rep['scenario'] != ('fixed' if want_fixed else 'variable'):
     out['fails'].append('scenario labelled %s but the non-incremental cost is %r' % (rep['scenario'], non_incr))
